@@ -167,6 +167,8 @@ var heldRun struct {
 	blocks  []bcl.Block
 	binding bcl.Binding
 	want    string
+	err     error
+	errText string
 }
 
 // compareRun is the reference-model oracle: parse + run src on both sides and compare
@@ -184,6 +186,11 @@ func compareRun(src string) (*fw.Fail, cmpInfo) {
 	r := impl.Interpret(src)
 	// what the PREVIOUS call returned still belongs to the caller: this call must not have touched it (a result slice
 	// or map the library recycles shows up here: the held text was rendered after the caller's own writes)
+	if heldRun.err != nil && heldRun.err.Error() != heldRun.errText {
+		got := heldRun.err.Error()
+		heldRun.err = nil
+		return fw.Failf("the error value returned by the previous call keeps its text: "+fw.Trunc(heldRun.errText, 200), "after this call it reads %q", fw.Trunc(got, 200)), cmpInfo{"earlier-result-changed"}
+	}
 	if heldRun.want != "" {
 		if got := impl.BlocksStr(heldRun.blocks) + " " + impl.BindingStr(heldRun.binding); got != heldRun.want {
 			heldRun.want = ""
@@ -196,6 +203,7 @@ func compareRun(src string) (*fw.Fail, cmpInfo) {
 		impl.Poison(r.Blocks, r.Binding)
 		heldRun.blocks, heldRun.binding = r.Blocks, r.Binding
 		heldRun.want = impl.BlocksStr(r.Blocks) + " " + impl.BindingStr(r.Binding)
+		heldRun.err, heldRun.errText = r.Err, r.ErrText()
 	}()
 	toks, lexfail := ref.Lex(src)
 	diags, warns, malformed := splitLog(src, r.Log)
